@@ -32,10 +32,13 @@ def script_of(handlers, pre=(), kind="skel"):
     return dict(tree=["script", ["factory", "-"], ["props"], ["globals"]] + handlers, pre=list(pre), kind=kind)
 
 
-def build_cases(scripts):
+GROUP = 16     # scripts per case (one driver call per case in impl; every script is still decompiled on its own)
+
+
+def build_cases(scripts, group=GROUP):
     lines = [L.gen_line(sx(s["tree"]), s.get("pre", ()), 0) for s in scripts]
     outs = L.ask_parallel(lines)
-    cases, rejected = [], 0
+    units, rejected = [], 0
     for s, o in zip(scripts, outs):
         g = L.parse_gen(o)
         if "error" in g:
@@ -49,9 +52,22 @@ def build_cases(scripts):
             lines_c.append(f"lspec hcanon {hh}"); expect.append(hsx)
             lines_c.append(f"lspec hcode {L.hexs(g['names_sx'])} {L.hexs(hn)} {hh}"); expect.append(hcode)
             lines_c.append("lspec const 0"); expect.append("0")
-        spec = dict(script=sx(s["tree"]), lscr=g["lscr"], lnam=g["lnam"], names_sx=g["names_sx"], nhandlers=len(handlers),
+        unit = dict(script=sx(s["tree"]), lscr=g["lscr"], lnam=g["lnam"], names_sx=g["names_sx"], nhandlers=len(handlers),
                     classes=[L.c03_classes(h[3:]) for h in handlers], skel=s.get("skel"))
-        cases.append(Case(kind=s.get("kind", "skel"), spec=spec, lines=lines_c, expect=expect))
+        units.append((s.get("kind", "skel"), unit, lines_c, expect))
+    cases = []
+    by_kind = {}
+    for u in units:
+        by_kind.setdefault(u[0], []).append(u)
+    for kind, us in by_kind.items():
+        for i in range(0, len(us), group):
+            part = us[i:i + group]
+            lines_c, expect, index = [], [], []
+            for si, (_, unit, ls, ex) in enumerate(part):
+                for li in range(len(ls)):
+                    index.append([si, li // 3])
+                lines_c += ls; expect += ex
+            cases.append(Case(kind=kind, spec=dict(scripts=[u[1] for u in part], index=index), lines=lines_c, expect=expect))
     return cases, rejected
 
 
@@ -203,12 +219,13 @@ PROBES = {
 
 def mkcorpus():
     from core import VERIF
-    cs, _ = build_cases([script_of([h], kind="corpus-" + k) for k, h in PROBES.items()])
     d = VERIF / "corpus" / "C03"
     d.mkdir(parents=True, exist_ok=True)
-    for (k, _), c in zip(PROBES.items(), cs):
+    for k, h in PROBES.items():
+        cs, _ = build_cases([script_of([h], kind="corpus-" + k)])
+        c = cs[0]
         (d / (k + ".json")).write_text(json.dumps(dict(case=dict(kind=c.kind, spec=c.spec, lines=c.lines, expect=c.expect)), indent=1))
-    print("wrote", len(cs), "replays to", d)
+    print("wrote", len(PROBES), "replays to", d)
 
 
 def cases(rng, tier):
@@ -223,6 +240,7 @@ def cases(rng, tier):
         scripts += skeleton_scripts(3, 2, "skel-k3-len2", skip_dead=True)
         scripts += skeleton_scripts(2, 2, "skel-k2-len2")
         scripts += random_scripts(rng, 20000 if tier == "thorough" else 8000) + long_body_scripts(rng, 300)
+    # corpus replays are single-script cases (core prepends them)
     cs, rejected = build_cases(scripts)
     cases.rejected = rejected
     cases.last = cs
@@ -232,26 +250,34 @@ def cases(rng, tier):
 # ---------------------------------------------------------------------------------------------- the real code
 
 def impl(case):
-    sp = case["spec"]
-    n = len(case["lines"])
-    try:
-        text = L.decompile(L.B(sp["lscr"]), L.B(sp["lnam"]))["lingo"]
-    except Exception:
-        return [canon("error")] * n
-    r = L.parse_rt(L.ask([L.rt_line(text, sp["names_sx"], 0)])[0])
-    if "error" in r:
-        return ["unreadable:" + r["error"][:60]] * n
-    # raw pseudo-statements per handler
     import re
-    chunks = re.split(r"\n(?=on |method )", "\n" + text)
-    chunks = [c for c in chunks if c.lstrip().startswith(("on ", "method "))]
+    units = case["spec"]["scripts"]
+    texts = []
+    for sp in units:
+        try:
+            texts.append(L.decompile(L.B(sp["lscr"]), L.B(sp["lnam"]))["lingo"])
+        except Exception:
+            texts.append(None)
+    idx = [i for i, t in enumerate(texts) if t is not None]
+    rts = dict(zip(idx, L.ask([L.rt_line(texts[i], units[i]["names_sx"], 0) for i in idx])))
     out = []
-    for i in range(sp["nhandlers"]):
-        raw = sum(1 for l in (chunks[i].split("\n") if i < len(chunks) else []) if l.strip() in ("jz", "jump") or l.strip().startswith(("jz ", "jump ")))
-        if i < len(r["handlers"]):
-            out += [r["handlers"][i][0], r["handlers"][i][1], str(raw)]
-        else:
-            out += ["missing", "missing", str(raw)]
+    for i, sp in enumerate(units):
+        n = 3 * sp["nhandlers"]
+        if texts[i] is None:
+            out += [canon("error")] * n
+            continue
+        r = L.parse_rt(rts[i])
+        if "error" in r:
+            out += ["unreadable:" + r["error"][:60]] * n
+            continue
+        chunks = re.split(r"\n(?=on |method )", "\n" + texts[i])
+        chunks = [c for c in chunks if c.lstrip().startswith(("on ", "method "))]
+        for h in range(sp["nhandlers"]):
+            raw = sum(1 for l in (chunks[h].split("\n") if h < len(chunks) else []) if l.strip() in ("jz", "jump") or l.strip().startswith(("jz ", "jump ")))
+            if h < len(r["handlers"]):
+                out += [r["handlers"][h][0], r["handlers"][h][1], str(raw)]
+            else:
+                out += ["missing", "missing", str(raw)]
     return out
 
 
@@ -260,11 +286,10 @@ def nontrivial(case, io):
 
 
 def _classes(case, f):
-    if f.line is None:
+    if f.line is None or f.line >= len(case["spec"]["index"]):
         return None
-    i = f.line // 3
-    cl = case["spec"]["classes"]
-    return cl[i] if i < len(cl) else None
+    si, hi = case["spec"]["index"][f.line]
+    return case["spec"]["scripts"][si]["classes"][hi]
 
 
 def m_class(case, f, params):
@@ -281,19 +306,21 @@ def extra_stage(ctx, driver, stats):
     stats["rejected_by_scheme"] = getattr(cases, "rejected", 0)
     failing = set()
     for f in ctx.failures:
-        if f.stage == "D" and f.case is not None and f.line is not None:
-            failing.add((f.case["spec"]["script"], f.line // 3))
+        if f.stage == "D" and f.case is not None and f.line is not None and f.line < len(f.case["spec"]["index"]):
+            si, hi = f.case["spec"]["index"][f.line]
+            failing.add((f.case["spec"]["scripts"][si]["script"], hi))
     pred_fail = pred_pass = unpred_fail = ok = 0
     stale = []
     for c in getattr(cases, "last", []):
-        for i, cl in enumerate(c.spec["classes"]):
-            bad = (c.spec["script"], i) in failing
+      for u in c.spec["scripts"]:
+        for i, cl in enumerate(u["classes"]):
+            bad = (u["script"], i) in failing
             if cl and bad:
                 pred_fail += 1
             elif cl and not bad:
                 pred_pass += 1
                 if len(stale) < 5:
-                    stale.append((c.spec.get("skel") or [c.spec["script"][:200]])[min(i, len(c.spec.get("skel") or [1]) - 1)])
+                    stale.append((u.get("skel") or [u["script"][:200]])[min(i, len(u.get("skel") or [1]) - 1)])
             elif bad:
                 unpred_fail += 1
             else:
